@@ -23,8 +23,10 @@ MAX_STEPS = 50000
 
 @st.composite
 def cases(draw, tier="quick"):
+    big = draw(st.integers(0, 3)) == 0   # reward ranges of ~100 make the inner value iteration long
     spec = draw(mdp_specs("dproper", min_states=2, max_states=6 if tier == "thorough" else 5, uniform_actions=True,
-                          gammas=[0.5, 0.8, 0.9], absorbing_kinds=("n", "n", "n", "n", "abs"), allow_explicit=True))
+                          gammas=[0.5, 0.8, 0.9], absorbing_kinds=("n", "n", "n", "n", "abs"), allow_explicit=True,
+                          reward_lo=-90 if big else None, reward_hi=90 if big else None))
     return {"mdp": spec, "m": draw(st.integers(1, 5)), "episodes": draw(st.integers(1, 10)),
             "seed": draw(st.one_of(st.sampled_from([0, 1, 2 ** 31 - 1]), st.integers(0, 10 ** 6))),
             "diff": draw(st.sampled_from([1e-3, 1e-6]))}
